@@ -180,9 +180,9 @@ ADDENDA = {
            'numbers, None, bytes, dotted and starred strings) x 2 levels x missing-key position x 4 spellings. Method names (count) as segments. Sub-check falsy-lookup-errors (containers whose KeyError / AttributeError subclasses are falsy). Joined Paths holding T steps; str-subclass path texts. A prefix Path joined more than once.',
     'C02': ' Sub-checks literal-arguments (24 kinds of literal x 6 wrappers x 14 argument positions on a recording target: everything but plain containers must arrive as the '
            'very same object), per-item (every expression of <= 2 steps over three targets inside ONE call against the three separate calls) and arguments-from-target '
-           '(14 kinds of value fetched by a nested T x 8 positions: evaluated once, passed by identity). Operands include the twins 2 / 2.0 / True. Slices with 0 bounds. A dict subclass with its own __getitem__ / __missing__ as target; specs in key position of dict arguments. Sub-check stateful-operands (one nested-T object with a side effect at several argument positions); class and callable-with-None-attribute targets; twin tuples in one argument. Keyword names func / args / kwargs / target / scope in call steps; getters failing on another attribute name.',
+           '(14 kinds of value fetched by a nested T x 8 positions: evaluated once, passed by identity). Operands include the twins 2 / 2.0 / True. Slices with 0 bounds. A dict subclass with its own __getitem__ / __missing__ as target; specs in key position of dict arguments. Sub-check stateful-operands (one nested-T object with a side effect at several argument positions); class and callable-with-None-attribute targets; twin tuples in one argument. Keyword names func / args / kwargs / target / scope in call steps; getters failing on another attribute name. Keyword order as written; falsy callables; plain list / dict / set arguments arrive as copies.',
     'C03': ' Sub-checks object-reuse (22 specs with container arguments x 10 composite templates, one shared object against separate equal objects) and invoke-builders '
-           '(all derivation histories of depth <= 3 over 8 builder calls applied to any earlier node, with and without evaluation in between). Sub-check list-spec-laziness: one-shot counting sources x STOP / SKIP values x failure position x 3 positions of the list spec (nothing behind a STOP is pulled). Coalesce(skip_exc=()). Sub-specs raising StopIteration; Counter / defaultdict / user-subclass dict specs. Sub-check list-spec-falsy-targets (14 values x 5 positions).',
+           '(all derivation histories of depth <= 3 over 8 builder calls applied to any earlier node, with and without evaluation in between). Sub-check list-spec-laziness: one-shot counting sources x STOP / SKIP values x failure position x 3 positions of the list spec (nothing behind a STOP is pulled). Coalesce(skip_exc=()). Sub-specs raising StopIteration; Counter / defaultdict / user-subclass dict specs. Sub-check list-spec-falsy-targets (14 values x 5 positions). Sub-check call-and-invoke-parts.',
     'C04': ' The catalogue includes falsy, final (not subclassable), read-only-args and sealed exception classes; sub-check glom-detected crosses 21 failures that glom '
            'detects itself with 19 positions in which the failing spec is evaluated. User subclasses of seven glom error classes; callables inside Fill / argument containers of every rebuilt type. Arithmetic T skeletons around OverflowError / FloatingPointError / user ArithmeticError subclasses. Match predicates that raise or answer without a truth value. Faults below back-references of a recursive Ref; comparisons that raise under M.',
     'C05': ' Sub-check long-values: 15 container kinds (150 items, subclasses with their own repr, unsorted insertion order, 8-9 nesting levels) x 4 positions x 6 failing specs; '
@@ -191,27 +191,27 @@ ADDENDA = {
     'C06': ' The pool includes Vars() specs without keyword defaults, a default list that cannot be completed and opaque leaves under ** followed by iteration. Classes created while a call runs. T expressions differing only in the type of an equal argument; operators on mutable containers inside the target. Spec objects carrying glomit per instance; a Fill template written by a later step.',
     'C07': ' Sub-checks entry-points (all call histories of depth <= 3 (4) over Spec.glom(scope=) / glom(t, spec, scope=) x 4 call scopes x 4 Spec scopes on ONE Spec object, '
            'and Iter().first(key)), simultaneous-binding (every S / Let binder with 2-3 keywords whose values read sibling names) and binder-reuse (one binder whose value '
-           'is a container literal reading the scope, evaluated under two bindings in one call). Sub-checks shadowing-values (inner bindings to None / 0 / empty containers x 4 binders x 5 readers), spec-scope-reasserted, lazy-binders (7 producers x 5 consumers x 4 shapes). Caller scopes that are layered ChainMaps. Required(binder) keys; Spec(binder) / Auto(binder) wrappers. Coalesce defaults after failed / skipped binding branches; binders spelled Path(A, name).',
+           'is a container literal reading the scope, evaluated under two bindings in one call). Sub-checks shadowing-values (inner bindings to None / 0 / empty containers x 4 binders x 5 readers), spec-scope-reasserted, lazy-binders (7 producers x 5 consumers x 4 shapes). Caller scopes that are layered ChainMaps. Required(binder) keys; Spec(binder) / Auto(binder) wrappers. Coalesce defaults after failed / skipped binding branches; binders spelled Path(A, name). Glommer calls: S.globals does not outlive a call, scope= through Glommer.glom; inner bindings equal to the outer value.',
     'C08': ' Lazy Iter().map(X) below a wrapper that is a non-last chain link (consumed by a later step or after glom() returned) and all linear '
-           '(wrapper, container) spines of 3 (4) levels are part of the term space; targets have two distinct items per level. Switch with constant key specs under auto / fill / match. Argument positions below Fill / Match (Coalesce default, Call args / kwargs, S bindings, T call arguments); probes after a partly failed star step. The default of First as an argument position.',
+           '(wrapper, container) spines of 3 (4) levels are part of the term space; targets have two distinct items per level. Switch with constant key specs under auto / fill / match. Argument positions below Fill / Match (Coalesce default, Call args / kwargs, S bindings, T call arguments); probes after a partly failed star step. The default of First as an argument position. Invoke keyword specs under Match / Group.',
     'C09': ' Every accepted case is repeated on the same Match object after the caller modified the first result in place (mutable Optional defaults included); predicates '
            'raising arbitrary exceptions, callables without __name__, bytes targets and bytes patterns, NaN. And over patterns with Optional defaults. Predicates without a truth value; bytearray / memoryview targets. Refinement types (value-dependent instance checks).',
     'C10': ' Sub-check reuse-histories: one combinator object evaluated over all ten targets in both orders (every ordered pair of targets); double negation with ~. Sub-check operator-derivations (an existing combinator is used, a new one is derived from it with & | ~, it is used again); M(T..) op M(T..). Targets False and None. Container defaults of And / Or; types as converting callables outside Match; every collection kind for Check(one_of=). Predicates raising AssertionError / user exceptions; one target object changed in place between evaluations; sub-check reflected-operators (x & m for left operands without an & of their own).',
     'C11': ' Values include T and [T, lit] (target-dependent); indexes below -len. Wildcard destinations: four kinds of value (literal, spec reading the target, list / dict '
            'literal), one value object shared by all matches, targets in which one container is reached twice. Sub-checks empty-segments (path texts over the segments "" and k) and dynamic-keys (T / Spec expressions as last, middle or only key). Sub-checks dynamic-keys-below-wildcards (key specs reading data the assignment changes: evaluated once) and dynamic-keys-in-created-segments (T / Spec keys at or below the first absent segment under missing=, 11 paths x 2 factories x 2 forms). One Assign with a container value over several targets in one call; sub-check unresolvable-dynamic-keys; Specs as plain Path parts. Wildcard destinations through ** and over equal-but-distinct containers.',
     'C12': ' A present element that cannot be deleted must raise even under ignore_missing where Python distinguishes the two (T spellings). Wildcard destinations: ignore_missing '
-           'with a miss in the middle of the broadcast, parent keys named x / X, targets in which one container is reached twice. Sub-checks empty-segments and dynamic-keys as in C11. Sub-check dynamic-keys-below-wildcards as in C11; tuple keys holding a spec. Namedtuple / frozenset-subclass literal keys; Specs as plain Path parts. Wildcard destinations through ** and over equal-but-distinct containers.',
+           'with a miss in the middle of the broadcast, parent keys named x / X, targets in which one container is reached twice. Sub-checks empty-segments and dynamic-keys as in C11. Sub-check dynamic-keys-below-wildcards as in C11; tuple keys holding a spec. Namedtuple / frozenset-subclass literal keys; Specs as plain Path parts. Wildcard destinations through ** and over equal-but-distinct containers. Sub-check containers-with-their-own-deletion (5 containers x 3 spellings x direct | nested x ignore_missing).',
     'C13': ' Eight families (incl. a registered diamond bottom with an unregistered subclass, all 6 registration orders); register-X, register-Y, register-X-again histories also '
            'in the quick tier; operations switched off with False and re-registered; an object created by missing= during a Glommer call is observed as well. Ten families incl. a builtin container before a registered mixin in the MRO and a registered str subclass; the model demands the MRO-nearest real ancestor. Bare register(X) / register(X, exact=..) before and after registrations with handlers; ONE spec object per operation for a whole history (all registries, before and after every registration). Every iterate lookup repeated through a fold, every get lookup repeated as second path segment (differential).',
-    'C14': ' The T spellings are also run rooted at a scope variable (S[v]...); side menu with falsy objects that have children. Iterables failing midway, user subclasses of list / tuple / set. Sub-check spec-valued-step-after-wildcard (T / Spec / Val / callable keys directly after * and **, T / S / Path spellings, with and without a further step). Sub-check steps-after-wildcards-histories (unary / arithmetic / twin-index steps after wildcards, sequences of 1-3 in one process). Wildcard mutation through ** and over equal-but-distinct containers.',
-    'C15': ' Sub-spec kinds T, path, [T], [x] with x yielding SKIP / STOP at a marked element; the same target object is extended by the caller and evaluated again. groupby inputs (members depending on the outer iterator). The spec= argument of flatten() / merge() (absent, T, a path to where the input sits) at every number of levels. Falsy spec= arguments. Sub-checks registration-histories (folds between registrations, <= 4 events) and folds-around-groups.',
+    'C14': ' The T spellings are also run rooted at a scope variable (S[v]...); side menu with falsy objects that have children. Iterables failing midway, user subclasses of list / tuple / set. Sub-check spec-valued-step-after-wildcard (T / Spec / Val / callable keys directly after * and **, T / S / Path spellings, with and without a further step). Sub-check steps-after-wildcards-histories (unary / arithmetic / twin-index steps after wildcards, sequences of 1-3 in one process). Wildcard mutation through ** and over equal-but-distinct containers. Steps succeeding on leaves after **; sub-check objects-and-callees-after-wildcards.',
+    'C15': ' Sub-spec kinds T, path, [T], [x] with x yielding SKIP / STOP at a marked element; the same target object is extended by the caller and evaluated again. groupby inputs (members depending on the outer iterator). The spec= argument of flatten() / merge() (absent, T, a path to where the input sits) at every number of levels. Falsy spec= arguments. Sub-checks registration-histories (folds between registrations, <= 4 events) and folds-around-groups. Throw-away init callables of alternating result types.',
     'C16': ' Aggregators with a non-zero start value, equal values of different types and NaN as items, every result is modified by the caller before the next evaluation; '
-           'an inner Group as non-last Pipe step of an outer Group. Bucket keys that are classes, None as first item, inner Groups ending by STOP. Sub-check aggregator-roles (one aggregator object as plain fold / Group leaf, all sequences of <= 3 uses).',
+           'an inner Group as non-last Pipe step of an outer Group. Bucket keys that are classes, None as first item, inner Groups ending by STOP. Sub-check aggregator-roles (one aggregator object as plain fold / Group leaf, all sequences of <= 3 uses). type keys over equal items of different types.',
     'C17': ' Stages include windowed(0) and limit(0); terminals include first(key=) selecting an item that is itself falsy. split(sep=0), split(maxsplit=1), split(). Builtin containers as sources.',
     'C18': ' The constructed object is compared with the steps as written (not only with its own round trip); Paths with a bare root followed by T chunks; strings with both quote characters. Pickle protocols 0-2, copy and deepcopy; tuple-valued plain steps; an exception from repr() is a violation. The same argument under different operations (Path segment, attribute, item) in startswith / ==; literals beyond every reprlib default limit. Sub-check opcode-literals; slices round-trip through repr / pickle / deepcopy. Joins leave their operands unchanged; slice bounds that are 0.',
     'C19': ' Targets and literal specs with non-string keys; semantically malformed targets (unhashable key, impossible date, 5000-digit integer, 100000 nesting levels); sub-checks '
            'text-forms (41 texts that are well-formed in several formats with different meanings, read with the loader of the declared format) and call-histories (all '
-           'sequences of 1-2 (3) in-process CLI calls from a menu of 11). White space around target texts, keys above U+FFFF. An explicitly named target while stdin carries something else; tuple results under --scalar; target files that are not text, binary, or directories. Sub-check spec-spellings (26 spec texts x argument | file); target file names suggesting another format. The empty spec text.',
+           'sequences of 1-2 (3) in-process CLI calls from a menu of 11). White space around target texts, keys above U+FFFF. An explicitly named target while stdin carries something else; tuple results under --scalar; target files that are not text, binary, or directories. Sub-check spec-spellings (26 spec texts x argument | file); target file names suggesting another format. The empty spec text. Multi-document YAML; one spec text under two spec formats in one process.',
     'C20': ' The pool (19 entries) includes two different recursive specs using one Ref name, one spec with scope variables written and read around a scheduling point, an '
            'uncopyable GlomError raised two call levels down (the outer message must start with the outer target) and calls through a Glommer whose registry differs from the module registry. Also one first(key) spec whose key reads the scope and callers sharing one scope= dict (22 entries). One back-filling Assign(missing=) whose factory is a scheduling point, shared by two calls with different values (25 entries). A Fill([]) accumulator in a shared spec; two exception classes with one qualified name (29 entries). A failing T-call callee as scheduling point against another T call; one fresh Merge over two lazy targets (34 entries).',
 }
